@@ -6,7 +6,8 @@ Open Scope Z_scope.
 Inductive case13 :=
 | CDateCtor (z : ztable) (ctor : N) (y m d : Z) (obs : Z * Z * Z) (enc : list N)
 | CDateTime (z : ztable) (c : civil) (obs : civil)
-| CSysDT (z : ztable) (c : civil) (obs : civil).
+| CSysDT (z : ztable) (c : civil) (obs : civil)
+| CZoneOK (z : ztable).           (* the zone's table satisfies the hypothesis of the C13 theorems (B = 16 h) *)
 
 Definition civil_eqb (a b : civil) : bool :=
   let '(y1, m1, d1, h1, n1, s1) := a in let '(y2, m2, d2, h2, n2, s2) := b in
@@ -34,6 +35,7 @@ Definition model_ok13 (c : case13) : bool :=
       let '(y', m', d') := date_in off (local_date off y m d) in
       let '(_, _, _, h', mi', s') := civil_in off (time_date off (0, 1, 1, h, mi, s)) in
       civil_eqb (civil_in off (time_date off (y', m', d', h', mi', s'))) obs
+  | CZoneOK z => true
   end.
 
 (* C13 from the property text: exactly that year, month and day - and exactly those digits - unless the zone skipped
@@ -50,4 +52,5 @@ Definition spec_ok13 (c : case13) : bool :=
   | CSysDT z c obs =>
       let '(y, m, d, h, mi, s) := c in
       if exists_civil (off_table z) c && exists_civil (off_table z) (0, 1, 1, h, mi, s) then civil_eqb obs c else true
+  | CZoneOK z => table_ok 57600 z
   end.
